@@ -22,6 +22,7 @@ pub enum Family {
   Tagged,
   AbsorbingDense,
   RepeatDense,
+  Wide,
 }
 
 #[derive(Clone, Copy, Debug)]
@@ -311,13 +312,181 @@ pub fn gen_repeat_dense(src: &mut Src, opts: &LayoutOpts) -> GenLayout {
 }
 
 pub fn gen_family(src: &mut Src, fam: Family, opts: &LayoutOpts) -> GenLayout {
-  let g = match fam {
+  let mut g = match fam {
     Family::General => gen_general(src, opts),
     Family::Tagged => gen_tagged(src, opts, &[70, 15, 15], "tagged"),
     Family::AbsorbingDense => gen_absorbing_dense(src, opts),
     Family::RepeatDense => gen_repeat_dense(src, opts),
+    Family::Wide => gen_wide(src, opts),
   };
+  // key-code diversity: the small readable pools are relabelled onto the whole key space
+  if src.chance(35) {
+    relabel(src, &mut g);
+  }
   g
+}
+
+// *wide*: sizes far beyond the small families - many mappings on few final keys, many distinct
+// trigger modifiers, many distinct absorbed keys (counts near 8, 16, 32, 64).
+pub fn gen_wide(src: &mut Src, opts: &LayoutOpts) -> GenLayout {
+  let n = src.pick(&[9usize, 10, 12, 16, 17, 24, 31, 32, 33, 40, 64, 66]);
+  let mod_pool: Vec<KeyCode> = vec![LEFTSHIFT, RIGHTSHIFT, LEFTCTRL, RIGHTCTRL, LEFTALT, RIGHTALT, LEFTMETA, RIGHTMETA, CAPSLOCK, TAB, GRAVE, BACKSLASH, ESC, F1, F2, F3];
+  let n_finals = 1 + src.weighted(&[60, 30, 10]);
+  let finals = src.distinct(&ORDINARY, n_finals);
+  let mut mappings = Vec::new();
+  // layer keys that are not standard modifiers usually get their own `KEY -> []` mapping (as
+  // the README recommends), so that holding them passes nothing through
+  // "one-shot modifier" style: every chord has one modifier and absorbs it
+  let oneshot = src.chance(40);
+  let full_layer = oneshot || src.chance(65);
+  for k in mod_pool.iter().filter(|k| !is_modifier(**k)) {
+    if full_layer || src.chance(30) {
+      mappings.push(Mapping { from: vec![*k], to: vec![], repeat: Repeat::Normal, absorbing: vec![] });
+    }
+  }
+  let mut tag_i = 0usize;
+  let tag_pool: Vec<KeyCode> = nonmod_codes().iter().cloned().filter(|k| code_of(*k) >= 183 && code_of(*k) <= 560).collect();
+  for i in 0..n {
+    let final_key = src.pick(&finals);
+    let n_trig = if oneshot { 1 } else { src.weighted(&[10, 45, 30, 15]) };
+    let mut from = if oneshot { vec![mod_pool[(i + src.below(3)) % mod_pool.len()]] } else { src.distinct(&mod_pool, n_trig) };
+    from.push(final_key);
+    let shape = src.weighted(&[50, 20, 30]);
+    let to: Vec<KeyCode> = match shape {
+      0 => {
+        tag_i += 1;
+        vec![tag_pool[(tag_i * 7) % tag_pool.len()]]
+      }
+      1 => vec![],
+      _ => {
+        tag_i += 1;
+        let m = src.pick(&[LEFTSHIFT, LEFTCTRL, LEFTALT, LEFTMETA]);
+        vec![m, tag_pool[(tag_i * 7) % tag_pool.len()]]
+      }
+    };
+    let mut absorbing = Vec::new();
+    if opts.allow_absorbing && from.len() > 1 && src.chance(if oneshot { 90 } else { 55 }) {
+      // distinct absorbed keys across the layout: rotate through the trigger modifiers
+      absorbing.push(from[i % (from.len() - 1)]);
+      if from.len() > 2 && src.chance(30) {
+        let other = from[(i + 1) % (from.len() - 1)];
+        if !absorbing.contains(&other) {
+          absorbing.push(other);
+        }
+      }
+    }
+    let repeat = if src.chance(20) { gen_repeat(src, &[LEFTCTRL, F1, LEFTSHIFT], &[0, 50, 50], i as i32) } else { Repeat::Normal };
+    mappings.push(Mapping { from, to, repeat, absorbing });
+  }
+  let layout = Layout { mappings };
+  let mut o2 = *opts;
+  o2.max_alphabet = o2.max_alphabet.max(20);
+  finish(src, layout, "wide", &[], &o2, true)
+}
+
+// Injective relabelling of a generated layout onto the whole key space. Standard modifiers stay
+// standard modifiers (permuted among themselves), every other key goes to another non-modifier
+// code. Biased toward numeric relations that small pools never contain: codes that are equal
+// modulo 256, codes >= 562 (not registered with uinput), codes at bit 63 of a mask word,
+// neighbours of keys already chosen.
+pub fn relabel(src: &mut Src, g: &mut GenLayout) {
+  use std::collections::HashMap;
+  let mut keys: Vec<KeyCode> = layout_keys(&g.layout).0.clone();
+  for k in &g.alphabet {
+    if !keys.contains(k) {
+      keys.push(*k);
+    }
+  }
+  let mut map: HashMap<KeyCode, KeyCode> = HashMap::new();
+  let mut used: Vec<KeyCode> = Vec::new();
+  // modifiers: a rotation of the eight standard modifiers
+  let rot = if src.chance(50) { src.below(8) } else { 0 };
+  for (i, m) in STD_MODIFIERS.iter().enumerate() {
+    map.insert(*m, STD_MODIFIERS[(i + rot) % 8]);
+  }
+  for m in STD_MODIFIERS.iter() {
+    used.push(*m);
+  }
+  let nm = nonmod_codes();
+  let keep_some = src.chance(40);
+  for k in keys.iter().filter(|k| !is_modifier(**k)) {
+    if keep_some && src.chance(50) && !used.contains(k) {
+      map.insert(*k, *k);
+      used.push(*k);
+      continue;
+    }
+    let mut choice: Option<KeyCode> = None;
+    for _attempt in 0..6 {
+      let cand: Option<KeyCode> = match src.weighted(&[40, 25, 12, 8, 15]) {
+        0 => Some(nm[src.below(nm.len())]),
+        1 => {
+          // same code modulo 256 as a key already in use (modifiers included)
+          let base = used[src.below(used.len())];
+          let c = code_of(base);
+          let partners: Vec<u32> = [c + 256, c + 512, c.wrapping_sub(256), c.wrapping_sub(512)].iter().cloned().filter(|x| *x < 0x300).collect();
+          if partners.is_empty() { None } else { key_with_code(partners[src.below(partners.len())]) }
+        }
+        2 => {
+          let hi: Vec<KeyCode> = nm.iter().cloned().filter(|x| code_of(*x) >= 562).collect();
+          Some(hi[src.below(hi.len())])
+        }
+        3 => key_with_code(src.pick(&[63u32, 127, 191, 255, 319, 383, 447, 511, 575, 639])),
+        _ => {
+          let base = used[src.below(used.len())];
+          key_with_code(code_of(base) + 1).or(key_with_code(code_of(base).wrapping_sub(1)))
+        }
+      };
+      if let Some(c) = cand {
+        if !is_modifier(c) && !used.contains(&c) {
+          choice = Some(c);
+          break;
+        }
+      }
+    }
+    let c = match choice {
+      Some(c) => c,
+      None => match nm.iter().find(|x| !used.contains(x)) {
+        Some(c) => *c,
+        None => *k,
+      },
+    };
+    map.insert(*k, c);
+    used.push(c);
+  }
+  let f = |k: &KeyCode| *map.get(k).unwrap_or(k);
+  for m in g.layout.mappings.iter_mut() {
+    m.from = m.from.iter().map(f).collect();
+    m.to = m.to.iter().map(f).collect();
+    m.absorbing = m.absorbing.iter().map(f).collect();
+    if let Repeat::Special { keys, .. } = &mut m.repeat {
+      *keys = keys.iter().map(f).collect();
+    }
+  }
+  g.alphabet = g.alphabet.iter().map(f).collect();
+  g.family = format!("{}+relabelled", g.family);
+}
+
+// A crowd: many foreign non-modifier keys that a history presses first and keeps (mostly) held.
+// Sizes sit around 16, 32 and 64.
+pub fn add_crowd(src: &mut Src, g: &mut GenLayout) -> Vec<KeyCode> {
+  let n = src.pick(&[15usize, 16, 17, 18, 31, 32, 33, 34, 40, 63, 64, 65, 66, 70]);
+  let used = layout_keys(&g.layout);
+  let nm = nonmod_codes();
+  let start = src.below(nm.len());
+  let mut crowd = Vec::new();
+  let mut i = 0;
+  while crowd.len() < n && i < nm.len() {
+    let k = nm[(start + i * 7) % nm.len()];
+    i += 1;
+    if !used.contains(k) && !g.alphabet.contains(&k) && !crowd.contains(&k) && !TAGS.contains(&k) {
+      crowd.push(k);
+    }
+  }
+  for k in &crowd {
+    g.alphabet.push(*k);
+  }
+  g.family = format!("{}+crowd", g.family);
+  crowd
 }
 
 // Passes the generated layout through the loader; None = rejected (counted as a discard by
